@@ -85,7 +85,8 @@ impl<'a> ast::FieldAccess<'a> {
 }
 impl<'a> ast::FuncCall<'a> {
     #[verifier::external_body]
-    pub fn callee(self) -> (r: ast::Expr<'a>) requires self.wf(), tree_wf(self.0) ensures r.wf(), is_child_of(r.node(), self.0) { unimplemented!() }
+    pub fn callee(self) -> (r: ast::Expr<'a>) requires self.wf(), tree_wf(self.0) ensures r.wf(), is_child_of(r.node(), self.0), r.node() == self.callee_s() { unimplemented!() }
+    pub uninterp spec fn callee_s(self) -> &'a SyntaxNode;
     pub uninterp spec fn args_s(self) -> &'a SyntaxNode;
     #[verifier::external_body]
     pub fn args(self) -> (r: ast::Args<'a>) requires self.wf(), tree_wf(self.0) ensures r.wf(), r.0 == self.args_s(), is_child_of(r.node(), self.0), tree_wf(r.0) { unimplemented!() }
